@@ -303,6 +303,8 @@ void HttpMessage::readBody()
 		}
 		byte buffer[RECV_BLOCK_SIZE];
 		int maxToRead = _socket->available(), bytesRead = 0;
+		if (!chunked && maxToRead <= 0) // input was signalled but nothing is there: the peer closed in the middle of the body
+			break;
 		if (chunked)
 		{
 			String chunkSize = _socket->readLine();
